@@ -32,7 +32,7 @@ WithZeros(seq, z) ==
         pos == SelectSeq(seq, LAMBDA x : RSign(x) > 0)
     IN neg \o [j \in 1..z |-> RZero] \o pos
 
-Classes == IF Family = "lb" THEN {"null", "both", "konly"} ELSE {"null", "both"}
+Classes == {"null", "both", "konly", "bonly"}        \* the null patterns of K and B differ in both directions
 NB(c) == Cardinality({ i \in DOMAIN c : c[i] = "both" })
 NZ(c) == Cardinality({ i \in DOMAIN c : c[i] = "konly" })
 MinActive == 3
@@ -50,17 +50,26 @@ MkProblem(n, c, S, s) == [n |-> n, cls |-> c, sp |-> WithZeros(Pick(S), NZ(c)), 
 
 (* F1 "place": every placement of null / stiffness-only amplitudes (n <= NPlace), canonical spectra, scale 1;
    F2 "spec" : all spectra of the alphabet x scales {1, 2, 1/2} on a few placements *)
-NPlace == IF Thorough THEN 5 ELSE (IF Family = "lb" THEN 4 ELSE 5)
+NPlace == IF Thorough THEN 5 ELSE 4
+AllBoth(n) == [i \in 1..n |-> "both"]
 PatternsAt(n) ==
-    LET base == [i \in 1..n |-> "both"]
-    IN { base, [base EXCEPT ![2] = "null"] } \cup
-       (IF Family = "lb" THEN { [base EXCEPT ![2] = "null", ![4] = "konly"], [base EXCEPT ![1] = "konly"] } ELSE {}) \cup
-       (IF n >= 6 THEN { [base EXCEPT ![3] = "null", ![6] = "null"] } ELSE {})
+    { AllBoth(n), [AllBoth(n) EXCEPT ![2] = "null"] } \cup
+    (IF Family = "lb" THEN { [AllBoth(n) EXCEPT ![2] = "null", ![4] = "konly"], [AllBoth(n) EXCEPT ![1] = "konly"] } ELSE {})
+(* "spec2": the null patterns of K and B differ (load / mass on a stiffness-less amplitude, massless stiff one) *)
+Patterns2At(n) ==
+    { [AllBoth(n) EXCEPT ![2] = "bonly"], [AllBoth(n) EXCEPT ![3] = "bonly", ![5] = "konly"] } \cup
+    (IF Family = "freq" THEN { [AllBoth(n) EXCEPT ![1] = "konly"], [AllBoth(n) EXCEPT ![2] = "null", ![4] = "bonly"] } ELSE {})
 Scales(c) == IF Thorough /\ NZ(c) > 0 THEN { ROne } ELSE { ROne, Q(2,1), Q(1,2) }
 Nums(n, tag) == IF Thorough THEN (IF tag = "spec" THEN {1, 3, n - 1, n + 2} ELSE {1, 2, 3, n - 1, n, n + 2})
-                ELSE IF tag = "place" THEN {1, n - 1, n + 2} ELSE {1, 3, n - 1, n + 2}
+                ELSE IF tag = "place" THEN (IF Family = "lb" THEN {1, n - 1, n + 2} ELSE {1, n + 2})
+                ELSE IF tag = "spec2" THEN {1, 3, n - 1} ELSE {1, 3, n - 1, n + 2}
 OptsFor(n, tag) ==
-    IF Family = "lb"
+    IF tag = "spec2"
+    THEN (IF Family = "lb"
+          THEN [api : {"lb", "panel_lb"}, sparse : BOOLEAN, num : Nums(n, tag), sort : {FALSE}, reduced : {FALSE}, pos : {0}]
+          ELSE [api : {"freq"}, sparse : {TRUE}, num : Nums(n, tag), sort : BOOLEAN, reduced : {FALSE}, pos : {0}]
+               \cup [api : {"freq", "panel_freq"}, sparse : {FALSE}, num : {2}, sort : BOOLEAN, reduced : {FALSE}, pos : {0}])
+    ELSE IF Family = "lb"
     THEN [api : IF tag = "place" /\ (~Thorough \/ n >= 6) THEN {"lb"} ELSE {"lb", "panel_lb"}, sparse : BOOLEAN,
           num : Nums(n, tag), sort : {FALSE}, reduced : {FALSE}, pos : {0}]
          \cup (IF tag = "place" /\ (~Thorough \/ n >= 6) THEN {}
@@ -80,8 +89,10 @@ MCInit ==
          \E o \in OptsFor(n, "place") : st = InitState(MkProblem(n, c, S, ROne), o, Dev)
     \/ \E c \in PatternsAt(5) : \E S \in KSubsets(NB(c)) : \E s \in Scales(c) :
          \E o \in OptsFor(5, "spec") : st = InitState(MkProblem(5, c, S, s), o, Dev)
+    \/ \E c \in Patterns2At(5) : \E S \in KSubsets(NB(c)) :
+         \E o \in OptsFor(5, "spec2") : st = InitState(MkProblem(5, c, S, ROne), o, Dev)
     \/ /\ Family = "freq"
-       /\ \E n \in 3..4 : \E c \in ClsVecs(n) : \E S \in {Canon1(NB(c)), Canon2(NB(c))} :
+       /\ \E n \in 3..4 : \E c \in { d \in ClsVecs(n) : \A i \in 1..n : d[i] \in {"null", "both"} } : \E S \in {Canon1(NB(c)), Canon2(NB(c))} :
             \E o \in OptsFor(n, "place") :
                st = InitState([MkProblem(n, c, S, ROne) EXCEPT !.zs = {FirstBoth(c)}], o, Dev)
 (* END: one compact line per finished behaviour (which actions ran, how it ended, which antecedents held) *)
